@@ -142,7 +142,8 @@ func (mt *MemTopics) Retain(msg *message.PublishMessage) error {
 	return mt.rroot.rinsert(msg.Topic(), msg)
 }
 
-// Retained implements Provider.
+// Retained implements Provider. The messages added to msgs are copies of the
+// stored retained messages, so the caller may keep, alter and send them.
 func (mt *MemTopics) Retained(topic []byte, msgs *[]*message.PublishMessage) error {
 	mt.rmu.RLock()
 	defer mt.rmu.RUnlock()
@@ -430,12 +431,9 @@ func (rn *rnode) rremove(topic []byte) error {
 // wildcards, whereas the retained message topic is a full (no wildcard) topic.
 func (rn *rnode) rmatch(topic []byte, msgs *[]*message.PublishMessage) error {
 	// If the topic is empty, it means we are at the final matching rnode. If so,
-	// add the retained msg to the list.
+	// add a copy of the retained msg to the list.
 	if len(topic) == 0 {
-		if rn.msg != nil {
-			*msgs = append(*msgs, rn.msg)
-		}
-		return nil
+		return rn.appendRetained(msgs)
 	}
 
 	// ntl = next topic level
@@ -448,7 +446,9 @@ func (rn *rnode) rmatch(topic []byte, msgs *[]*message.PublishMessage) error {
 
 	if level == MWC {
 		// If '#', add all retained messages starting this node
-		rn.allRetained(msgs)
+		if err := rn.allRetained(msgs); err != nil {
+			return err
+		}
 	} else if level == SWC {
 		// If '+', check all nodes at this level. Next levels must be matched.
 		for _, n := range rn.rnodes {
@@ -468,14 +468,38 @@ func (rn *rnode) rmatch(topic []byte, msgs *[]*message.PublishMessage) error {
 	return nil
 }
 
-func (rn *rnode) allRetained(msgs *[]*message.PublishMessage) {
-	if rn.msg != nil {
-		*msgs = append(*msgs, rn.msg)
+func (rn *rnode) allRetained(msgs *[]*message.PublishMessage) error {
+	if err := rn.appendRetained(msgs); err != nil {
+		return err
 	}
 
 	for _, n := range rn.rnodes {
-		n.allRetained(msgs)
+		if err := n.allRetained(msgs); err != nil {
+			return err
+		}
 	}
+
+	return nil
+}
+
+// appendRetained adds a deep copy of the retained message of this node, if
+// there is one, to the list. The stored message itself must not be handed out:
+// rinsert() rewrites it and its buffer in place, while the receivers of the list
+// use the messages after the retained message mutex has been released. The copy
+// is made under that mutex (held by the caller of rmatch()); cloning only reads
+// the stored message, because it is the result of Decode().
+func (rn *rnode) appendRetained(msgs *[]*message.PublishMessage) error {
+	if rn.msg == nil {
+		return nil
+	}
+
+	m, err := rn.msg.Clone()
+	if err != nil {
+		return err
+	}
+
+	*msgs = append(*msgs, m)
+	return nil
 }
 
 const (
